@@ -304,7 +304,7 @@ static int ref_search(const uint16_t *us, int n, int from, int *ms, int *me)
 	int i, so, eo;
 	if (from >= n) return 0;
 	enc_string(us + from, n - from, buf, boff);
-	if (regexec(&ref_re, buf, 1, m, from > 0 ? REG_NOTBOL : 0) != 0) return 0;
+	if (regexec(&ref_re, buf, 1, m, (from > 0 && us[from - 1] != 0x0A) ? REG_NOTBOL : 0) != 0) return 0;
 	so = eo = -1;
 	for (i = 0; i <= n - from; i++) {
 		if (boff[i] == m[0].rm_so && so < 0) so = i;
@@ -324,6 +324,22 @@ static int ref_fullmatch(const uint16_t *us, int a, int b)
 	return ms == 0 && me == b - a;
 }
 
+/* does us[a..b) of the haystack us[0..n) match the pattern as a whole, where it stands?  (an anchored expression
+ * matches only at the beginning / end of a row) */
+static int ref_fullmatch_ctx(const uint16_t *us, int n, int a, int b)
+{
+	static char buf[HS_MAX * 3 + 4];
+	static int boff[HS_MAX + 1];
+	regmatch_t m[1];
+	int fl = 0;
+	if (a >= b || b > n) return 0;
+	if (a > 0 && us[a - 1] != 0x0A) fl |= REG_NOTBOL;
+	if (b < n && us[b] != 0x0A) fl |= REG_NOTEOL;
+	enc_string(us + a, b - a, buf, boff);
+	if (regexec(&ref_re, buf, 1, m, fl) != 0) return 0;
+	return m[0].rm_so == 0 && m[0].rm_eo == boff[b - a];
+}
+
 /* ------------------------------------------------------------------ */
 /* pattern generation                                                  */
 
@@ -337,6 +353,7 @@ struct pattern {
 	int overlap;                /* regexp whose symbols are not pairwise disjoint */
 	int has_dot, has_neg;
 	int n_escaped_hex, n_escaped_plain;   /* literals written as \xHHHH / as a needlessly escaped character */
+	int anchor;                 /* bit 0: begins with ^, bit 1: ends with $ */
 	char text[PAT_MAX * 7 + 8]; /* printable form for details */
 };
 
@@ -533,23 +550,26 @@ static int put_piece(struct vf_rng *r, struct pattern *p, unsigned c, const uint
 }
 
 static void pat_regex(struct vf_rng *r, struct pattern *p, const uint16_t *sample, int n, int casefold,
-		      const uint16_t *alpha, int n_alpha)
+		      const uint16_t *alpha, int n_alpha, int anchor)
 {
 	int i, alts, a;
 	memset(p, 0, sizeof *p);
-	p->regexp = 1; p->casefold = casefold;
+	p->regexp = 1; p->casefold = casefold; p->anchor = anchor;
 	n_syms = 0;
 	lit_rng = r;
 	alts = vf_chance(r, 1, 6) ? 2 : 1;
 	for (a = 0; a < alts; a++) {
 		int nonnull = 0;
 		if (a) put(p, '|');
+		/* anchors bind to the alternative they stand in: "^ab|c" is (^ab)|(c) in both dialects */
+		if (a == 0 && (anchor & 1)) put(p, '^');
 		for (i = 0; i < n && p->n_ure < PAT_MAX - 24; i++) {
 			unsigned c = a ? alpha[vf_below(r, (unsigned)n_alpha)] : sample[i];
 			int last = (i == n - 1);
 			int nullable = put_piece(r, p, c, alpha, n_alpha, !(last && !nonnull));
 			if (!nullable) nonnull = 1;
 		}
+		if (a == 0 && (anchor & 2)) put(p, '$');
 	}
 	p->ure[p->n_ure] = 0;
 	lit_rng = NULL;
@@ -918,7 +938,7 @@ static int check_highlight(const vbi_page *pg, const struct dbpage *d, const str
 				return 0;
 			}
 		}
-	if (!ref_fullmatch(d->us[1], a, b)) {
+	if (!ref_fullmatch_ctx(d->us[1], d->n[1], a, b)) {
 		vf_fail("model:C17:highlight-not-an-occurrence", "page %x.%x pattern \"%s\" casefold=%d regexp=%d: highlighted text (haystack %d..%d) %s is not a match",
 			d->pgno, d->subno, p->text, p->casefold, p->regexp, a, b, vf_hex(d->us[1] + a, (size_t)(b - a) * 2 > 80 ? 80 : (size_t)(b - a) * 2));
 		return 0;
@@ -1300,7 +1320,8 @@ static int pick_start_subno(struct vf_rng *r, int pgno)
 	}
 }
 
-static int sample_from_db(struct vf_rng *r, uint16_t *out, int maxlen)
+/* align: 0 anywhere, 1 the first characters of a row, 2 the last characters of a row */
+static int sample_from_db(struct vf_rng *r, uint16_t *out, int maxlen, int align)
 {
 	int t, n = 0;
 	for (t = 0; t < 12 && n_db; t++) {
@@ -1308,6 +1329,25 @@ static int sample_from_db(struct vf_rng *r, uint16_t *out, int maxlen)
 		int k = vf_chance(r, 1, 4) ? 0 : 1, len = d->n[k], p, i, want;
 		if (len < 2) continue;
 		p = (int)vf_below(r, (unsigned)len);
+		if (align) {
+			/* the row p lies in: prefer rows with text at that end */
+			int a, b, tries;
+			for (tries = 0; tries < 8; tries++) {
+				p = (int)vf_below(r, (unsigned)len);
+				for (a = p; a > 0 && d->us[k][a - 1] != 0x0A; a--) ;
+				for (b = a; b < len && d->us[k][b] != 0x0A; b++) ;
+				if (b - a < 1) continue;
+				if (align == 1 ? d->us[k][a] != 0x20 : d->us[k][b - 1] != 0x20) break;
+			}
+			if (tries == 8 && vf_chance(r, 1, 2)) continue;
+			if (b - a < 1) continue;
+			want = vf_range(r, 1, maxlen);
+			if (want > b - a) want = b - a;
+			p = align == 1 ? a : b - want;
+			for (n = 0; n < want; n++) out[n] = d->us[k][p + n];
+			if (n) return n;
+			continue;
+		}
 		for (i = 0; i < 60 && (d->us[k][p] == 0x20 || d->us[k][p] == 0x0A); i++) p = (int)vf_below(r, (unsigned)len);
 		if (d->us[k][p] == 0x0A) continue;
 		if (vf_chance(r, 1, 3) && p > 0 && d->us[k][p - 1] != 0x0A) p--;     /* include a leading space */
@@ -1339,9 +1379,12 @@ static void alphabet_unicode(uint16_t *alpha, int *n_alpha)
 static void gen_pattern(struct vf_rng *r, struct pattern *p)
 {
 	uint16_t sample[8], alpha[64];
-	int n, n_alpha, i, casefold = vf_chance(r, 2, 5), regexp = vf_chance(r, 2, 5);
+	int n, n_alpha, i, casefold = vf_chance(r, 2, 5), regexp = vf_chance(r, 2, 5), anchor = 0;
 	alphabet_unicode(alpha, &n_alpha);
-	n = vf_chance(r, 4, 5) ? sample_from_db(r, sample, regexp ? 4 : 6) : 0;
+	/* one regular expression in five is anchored at the beginning or the end of a row ("the standard set of
+	 * operators"; same meaning in POSIX ERE with REG_NEWLINE); the sample then comes from that end of a row */
+	if (regexp && vf_chance(r, 1, 5)) anchor = vf_chance(r, 1, 2) ? 1 : 2;
+	n = vf_chance(r, 4, 5) ? sample_from_db(r, sample, regexp ? 4 : 6, anchor) : 0;
 	if (!n) {
 		n = vf_range(r, 1, 4);
 		for (i = 0; i < n; i++) sample[i] = alpha[vf_below(r, (unsigned)n_alpha)];
@@ -1355,7 +1398,7 @@ static void gen_pattern(struct vf_rng *r, struct pattern *p)
 			if (sample[i] >= 'a' && sample[i] <= 'z') sample[i] = (uint16_t)(sample[i] - 32);
 			else if (sample[i] >= 'A' && sample[i] <= 'Z') sample[i] = (uint16_t)(sample[i] + 32);
 		}
-	if (regexp) pat_regex(r, p, sample, n, casefold, alpha, n_alpha);
+	if (regexp) pat_regex(r, p, sample, n, casefold, alpha, n_alpha, anchor);
 	else pat_literal(p, sample, n, casefold);
 }
 
@@ -1426,6 +1469,9 @@ static int run_session(struct vf_rng *r, int shape, long idx)
 	if (pat.n_escaped_plain) vf_count("patterns_with_needlessly_escaped_literal", 1);
 	if (pat.casefold && (pat.n_escaped_hex || pat.n_escaped_plain)) vf_count("patterns_casefold_with_escaped_literal", 1);
 	if (pat.regexp && pat.overlap) vf_count("patterns_regexp_overlapping_symbols", 1);
+	if (pat.anchor & 1) vf_count("patterns_anchored_at_row_start", 1);
+	if (pat.anchor & 2) vf_count("patterns_anchored_at_row_end", 1);
+	if (pat.anchor && nmatch) vf_count("anchored_patterns_with_matching_pages", 1);
 
 	if (ss.plan == 3) {
 		/* pages replaced between calls: termination, real occurrences, pass ends */
